@@ -85,7 +85,8 @@ def block(g, depth, kinds):
     kind = kinds[g.choose(len(kinds))]
     if kind == "para":
         m = g.marker()
-        return [m + " text", "continued"], [(m, 0, "paragraph", None)]
+        # the continuation line carries a form feed: an ordinary character of the line, not a line break
+        return [m + " text", "conti\x0cnued"], [(m, 0, "paragraph", None)]
     if kind == "quote":
         m = g.marker()
         return ["> " + m + " quoted"], [(m, 0, "paragraph", None), (m, 0, "block_quote", None)]
@@ -248,6 +249,9 @@ def make_layout(eng, depth, nblocks, kinds, inner=None, single=False):
     def body():
         g.reset()
         lines, marks = blocks(g, depth, nblocks, kinds)
+        if len(lines) > 1 and lines[-1] and set(lines[-1]) <= set("`") | set(":") and len(set(lines[-1])) == 1 and g.choose(2):
+            # the text ends inside the last directive: its closing fence is missing (content without a final newline)
+            lines = lines[:-1]
         text = "\n".join(lines)
         state["text"], state["marks"] = text, marks
         ctx = CR.new_context(config={"enable_extensions": ["colon_fence"]})
@@ -322,7 +326,7 @@ def make_toplevel(eng, kinds):
     setup()
     g = Gen(eng)
     state = {}
-    eng.witness_fn = lambda m: {"text": state.get("text"), "marks": state.get("marks"), "S": 0, "toplevel": True}
+    eng.witness_fn = lambda m: {"text": state.get("text"), "marks": state.get("marks"), "S": 0, "toplevel": True, "eof": state.get("eof", "\n")}
 
     def body():
         g.reset()
@@ -330,10 +334,14 @@ def make_toplevel(eng, kinds):
         bl, bm = blocks(g, 1, 1, kinds)
         lines = ["M0 intro", ""] + bl
         marks = [("M0", 0, "paragraph", None)] + [(m_, r_ + 2, k_, x_) for m_, r_, k_, x_ in bm]
+        eof = "\n"
+        if lines[-1] and len(set(lines[-1])) == 1 and lines[-1][0] in "`:" and g.choose(2):
+            # the document ends inside the last directive, without a final newline
+            lines, eof = lines[:-1], ""
         text = "\n".join(lines)
-        state["text"], state["marks"] = text, marks
+        state["text"], state["marks"], state["eof"] = text, marks, eof
         ctx = CR.new_context(config={"enable_extensions": ["colon_fence"]})
-        toks = ctx.md.parse(text + "\n", ctx.renderer.md_env)
+        toks = ctx.md.parse(text + eof, ctx.renderer.md_env)
         try:
             ctx.renderer._render_tokens(toks)
         except Exception as exc:  # noqa
@@ -404,7 +412,7 @@ def replay(label, witness):
     ctx = CR.new_context(real=True, config={"enable_extensions": ["colon_fence"]})
     try:
         if witness.get("toplevel"):
-            ctx.renderer._render_tokens(ctx.md.parse(text + "\n", ctx.renderer.md_env))
+            ctx.renderer._render_tokens(ctx.md.parse(text + witness.get("eof", "\n"), ctx.renderer.md_env))
         else:
             ctx.renderer.nested_render_text(text, S)
     except Exception as e:  # noqa
